@@ -15,7 +15,12 @@ def geometry(rng, natom, elements=None, spread=3.0):
     coords = []
     for i in range(natom):
         coords.append([round(rng.uniform(-spread, spread) + 1.7 * i, 4) for _ in range(3)])
-    return atnums, np.array(coords, dtype=float) * ANG
+    coords = np.array(coords, dtype=float)
+    if rng.random() < 0.25:
+        # the molecule sits away from the origin (a fragment of a larger system): every format holds +45 angstrom, and a unit
+        # factor that is off in the eighth digit shows in the sixth decimal there
+        coords[:, rng.randrange(3)] += 45.0
+    return atnums, coords * ANG
 
 
 def make_basis(rng, natom, conventions, scheme="segmented", lmax=2, pure=True, nshell=None, sort=True):
@@ -181,6 +186,10 @@ def make(fmt, rng, variant="plain", natom=None):
                                "protocols": {"keep_wavefunction": "all", "keep_stdout": True},
                                "provenance": [dict(prov)] if rng.random() < 0.5 else dict(prov)}}
             kw = dict(lot="HF", obasis_name="sto-3g")
+            if rng.random() < 0.6:
+                # the run type is one of the keywords of the document and an attribute of the object, which the user may have edited since
+                extra["input"]["keywords"]["run_type"] = "energy"
+                kw["run_type"] = rng.choice(["energy", "opt", "freq"])
             if variant.startswith("qcoutput"):
                 extra["schema_name"] = "qcschema_output"
                 extra["output"] = {"properties": {"calcinfo_nbasis": 7, "scf_iterations": 3, "nuclear_repulsion_energy": 1.25},
